@@ -548,12 +548,18 @@ fn run(ctx: &ShardCtx, rep: &mut Report) {
     MAX_SHRINK_ITERS.store(400, std::sync::atomic::Ordering::Relaxed);
     pt_run(ctx, rep, "identifiers", ctx.budget(60_000, 3_000_000), case_strategy(), |c, o| case(ctx, c, o));
     pt_run(ctx, rep, "resume", ctx.budget(6_000, 300_000), super::resume::case_strategy(None, Some(true)), |c, o| resume_case(ctx, c, o));
+    // listener role: the peer begins sessions on channel numbers of its own choice
+    pt_run(ctx, rep, "listener", ctx.budget(30_000, 1_500_000), super::c11l::case_strategy(), |c, o| super::c11l::case(c, o));
 }
 
 fn replay(variant: &str, case_json: &Json) -> Result<(), String> {
     if variant == "resume" {
         let c: super::resume::Case = serde_json::from_value(case_json.clone()).map_err(|e| format!("bad case: {e}"))?;
         return super::resume::run_case(&c).map(|_| ());
+    }
+    if variant == "listener" {
+        let c: super::c11l::Case = serde_json::from_value(case_json.clone()).map_err(|e| format!("bad case: {e}"))?;
+        return super::c11l::run_case(&c).map(|_| ());
     }
     let c: Case = serde_json::from_value(case_json.clone()).map_err(|e| format!("bad case: {e}"))?;
     run_case(&c).map(|_| ())
